@@ -24,6 +24,7 @@ DECIDED = [
     "R-C14-REDELIVER (finish): C03's finish rules reused - every prefetched message is returned individually by its own tag",
     "R-C14-TAKE (round 6 + sweep): the Redis fetch keeps no names between calls; RabbitMQ delivery decision table",
     "R-C14-AWAITED: in the files this property is anchored in, no bare statement calls a coroutine function (the operation would never run)",
+    "R-C14-TAKE (Redis sweep rules): Redis claim flow",
 ]
 NOT_DECIDED = ["cross-process interleavings as such", "RabbitMQ's server-side exclusive delivery of unacked messages (trusted)"]
 ASSUMPTIONS = ["asyncio atomicity between awaits (single process)", "Redis MULTI/EXEC atomicity"]
@@ -33,6 +34,9 @@ def run(ctx: Ctx) -> None:
     from .shared import every_operation_awaited
 
     every_operation_awaited(ctx, "R-C14-AWAITED")  # in the files this property is anchored in, no asynchronous operation is created and dropped
+    from .brokers import redis_claim_flow
+
+    redis_claim_flow(ctx, "R-C14-TAKE")  # the Redis take, guard by guard (no name -> nothing claimed; claimed -> removed from the right structure, marked, data read; complete data only)
     from .brokers import rabbit_delivery_table
 
     rabbit_delivery_table(ctx, "R-C14-TAKE")  # RabbitMQ: a delivery is either bounced to the server or remembered (tag) and handed out - never both, never neither
